@@ -14,7 +14,7 @@ Exit status: 0 held (or only known findings), 1 violation.
 import json, os, re, subprocess, sys, time, shutil, hashlib, concurrent.futures as cf
 
 V = os.path.dirname(os.path.abspath(__file__))
-REPO = os.environ.get("VERIF_REPO", "/repo")
+REPO = os.environ.get("VERIF_REPO") or "/repo"
 GOENV = dict(os.environ, GOFLAGS="-mod=mod", GOPROXY="off", GOSUMDB="off", GOTOOLCHAIN="local")
 GOMODCACHE = subprocess.run(["go", "env", "GOMODCACHE"], capture_output=True, text=True, env=GOENV).stdout.strip() or os.path.expanduser("~/go/pkg/mod")
 MAXPROC = int(os.environ.get("VERIF_PROCS", "5"))
